@@ -17,6 +17,9 @@ type APUChan struct {
 	// DacKnown / LenKnown: the guest has determined the DAC state / loaded the length counter
 	// (the statements say nothing about the state the machine starts in).
 	DacKnown, LenKnown bool
+	// SweepRuns: an adding sweep that did not overflow at the trigger is running; it may overflow at a later
+	// sweep clock (not modelled), so the status becomes unspecified at the next frame-sequencer step
+	SweepRuns bool
 }
 
 type APU struct {
@@ -88,7 +91,7 @@ func (a *APU) Write(addr uint16, v uint8) {
 			}
 			for i := range a.Ch {
 				a.Ch[i].On, a.Ch[i].Dac, a.Ch[i].LenEn = false, false, false
-				a.Ch[i].Unspec, a.Ch[i].DacKnown = false, true
+				a.Ch[i].Unspec, a.Ch[i].DacKnown, a.Ch[i].SweepRuns = false, true, false
 			}
 		} else if !a.Power {
 			a.Power = true
@@ -120,7 +123,7 @@ func (a *APU) Write(addr uint16, v uint8) {
 		a.Reg[i], a.Known[i] = v, true
 		a.Ch[ch].Dac, a.Ch[ch].DacKnown = v&0xf8 != 0, true
 		if !a.Ch[ch].Dac {
-			a.Ch[ch].On, a.Ch[ch].Unspec = false, false
+			a.Ch[ch].On, a.Ch[ch].Unspec, a.Ch[ch].SweepRuns = false, false, false
 		}
 	case 0xff1a:
 		a.Reg[i], a.Known[i] = v, true
@@ -157,6 +160,7 @@ func (a *APU) Write(addr uint16, v uint8) {
 				c.Unspec = true // counter at its maximum without having been reloaded: clocked or not is not fixed
 			}
 			c.On = c.Dac
+			c.SweepRuns = false
 			if ch == 0 {
 				period, shift, negate := (a.Reg[0]>>4)&7, uint(a.Reg[0]&7), a.Reg[0]&0x08 != 0
 				f := a.freq1()
@@ -168,7 +172,7 @@ func (a *APU) Write(addr uint16, v uint8) {
 				case negate:
 					// subtracting sweeps never overflow
 				default:
-					c.Unspec = true // an adding sweep is running and may overflow later: not modelled
+					c.SweepRuns = c.On // an adding sweep is running and may overflow later: not modelled
 				}
 			}
 		}
@@ -185,6 +189,9 @@ func (a *APU) Write(addr uint16, v uint8) {
 
 // FrameStep is one step of the 512 Hz frame sequencer.
 func (a *APU) FrameStep() {
+	if a.Ch[0].SweepRuns {
+		a.Ch[0].Unspec = true
+	}
 	if a.Step%2 == 0 {
 		for i := range a.Ch {
 			c := &a.Ch[i]
